@@ -71,6 +71,11 @@ def cases(tier, seed):
         nbits = int(DEPTHS[k % 6])
         nch = sigfile.legal_nchans(nbits, int(rng.integers(1, 9)))
         nfiles = int(rng.integers(1, 4))
+        if k % 3 == 2:     # "ragged" needs a sample wider than one item and a file to follow
+            nch = sigfile.legal_nchans(nbits, 2 * max(1, 8 // nbits) + int(rng.integers(0, 7)))
+            nfiles = max(nfiles, 2)
+        if k % 7 == 5:     # a duplicated member needs nothing; keep at least one distinct neighbour half of the time
+            nfiles = max(nfiles, 1 + k % 2)
         split = [int(rng.integers(1, 20)) for _ in range(nfiles)]
         yield {"kind": "random", "nbits": nbits, "nchans": nch, "split": split, "hseed": int(seed) * 100003 + k, "n": 8, "len": hlen,
                "contig": bool(k % 5 != 4) or tier == "quick", "ragged": k % 3 == 2, "dup": k % 7 == 5, "relchdir": k % 7 == 3}
